@@ -61,6 +61,40 @@ def significant_tokens(tt):
     return out
 
 
+def value_tokens_missing_from_expansion(r):
+    """identifier / literal tokens of the ASSERTED EXPRESSION (everything before the first top-level comma) that do not occur, with
+    their text and position, in the expansion: the value is spliced as written, so a token that is gone was dropped after parsing
+    (an attribute in front of a parenthesised value, a stripped wrapper)"""
+    if not r.exp_tokens or not r.tt:
+        return []
+    top = sexp(r.tt)
+    cut = next((i for i, t in enumerate(top) if t[0] == "P" and vlib.unhx(t[1]).decode() == ","), None)
+    if cut is None:
+        return []
+    missing = []
+
+    def walk(lst):
+        for t in lst:
+            if t[0] == "G":
+                walk(t[5])
+            elif t[0] in ("I", "L"):
+                if ("%s%s@%s" % (t[0], t[1], t[2])) not in r.exp_tokens:
+                    missing.append("`%s` at %s" % (vlib.unhx(t[1]).decode("utf-8", "replace"), t[2]))
+    total = []
+
+    def count(lst):
+        for t in lst:
+            if t[0] == "G":
+                count(t[5])
+            elif t[0] in ("I", "L"):
+                total.append(t)
+    walk(top[:cut])
+    count(top[:cut])
+    if missing and len(missing) == len(total):
+        return []       # the value is not in the expansion AT ALL: a pattern that asserts nothing expands to no code (C08's recorded finding), not a dropped token
+    return missing
+
+
 def dropped_tokens(r):
     """identifier / literal tokens of the input that are not tokens of the parsed value or pattern.  A token counts as
     present when it occurs as a token (text and position) of an expression, path, field name or literal of the tree, or
@@ -183,6 +217,13 @@ def run(res):
                 if failing <= 3:
                     res.violation("failing-input", "a malformed pattern (%s) is accepted by the macro" % r.cls,
                                   {"invocation": "assert_struct!(%s)" % r.text, "class": r.cls, "parsed_as": r.real_tree[:1500]})
+        if r.real_status == "ok" and r.tt:
+            vmiss = value_tokens_missing_from_expansion(r)
+            if vmiss:
+                failing += 1
+                if failing <= 3:
+                    res.violation("failing-input", "accepted, but tokens of the asserted expression are not part of the expansion (dropped after parsing): "
+                                  + ", ".join(vmiss[:5]), {"invocation": "assert_struct!(%s)" % r.text, "origin": r.origin, "dropped": vmiss[:20]})
         if r.real_status == "ok" and r.tt:
             n_acc += 1
             miss = dropped_tokens(r)
